@@ -19,6 +19,8 @@ ApplyReq(L, n, ws, dec) == [i |-> n, mode |-> "apply", kind |-> "apply", lang |-
 NonCodeReq(n, code) == [i |-> n, mode |-> "text", kind |-> "noncode", lang |-> code, via |-> "lookup", text |-> "one un uno",
                         thr |-> "0", want |-> Params.want]
 
+\* for the language itself: every pair of alphabet words (article + scale word, scale word plurals, ...)
+PairsOf(L2) == LET W == Words[L2] n == Len(W) IN [j \in 1..(n * n) |-> W[((j - 1) \div n) + 1] \o " " \o W[((j - 1) % n) + 1]]
 TextsOf(L2, salt) == LET W == Words[L2] IN
    [j \in 1..Len(W) |-> W[j]] \o AmbigParts[L2]
    \o [r \in 1..Params.randn |-> RandText(W, Seps, Start(Seed, salt, r), 2 + (r % 5))]
@@ -30,7 +32,7 @@ PerPair(k, base, acc) ==     \* k enumerates (L, L2) pairs
   LET n == Len(Params.langs) IN
   IF k > n * n THEN acc
   ELSE LET L == Params.langs[((k - 1) \div n) + 1]  L2 == Params.langs[((k - 1) % n) + 1]
-           T == TextsOf(L2, k)  S == WordSeqs(L2, k)
+           T == TextsOf(L2, k) \o (IF L = L2 THEN PairsOf(L2) ELSE <<>>)  S == WordSeqs(L2, k)
            part == [j \in 1..Len(T) |-> TextReq(L, base + j, T[j])]
                    \o [j \in 1..Len(S) |-> ApplyReq(L, base + Len(T) + j, S[j], j % 5 = 0)]
        IN PerPair(k + 1, base + Len(part), acc \o part)
